@@ -80,6 +80,10 @@ class Prop:
 
     @staticmethod
     def gen_dep_op(r, npool):
+        if r.random() < 0.05:
+            # 'del node.trait': the dependency falls back to its default
+            return {"k": "del_attr", "o": r.randrange(npool + 1),
+                    "name": r.choice(["child", "children", "children", "table", "group"])}
         for _ in range(20):
             op = G.gen_graph_op(r, npool)
             if op["k"] in ("set_child", "set_children", "children_same", "list", "set_table",
@@ -93,6 +97,7 @@ class Prop:
         cfg = trace["config"]
         self._pushed = False
         world = G.World(env, cfg["npool"], classes="PNode")
+        world.del_enabled = True
         world.lazy_enabled = False     # pickling materialises defaults: no self-propagating default
         self._world = world
         routed = []
